@@ -534,6 +534,45 @@ func GenExec(r *vh.Rng) (line, class string) {
 			start(randFate(), randMask()&3)
 		}
 	}
+	if len(calls) == 0 && r.Intn(3) == 0 {
+		// focused: the server closes the transport while several calls are registered but unwritten (closeWithError waits in
+		// its delivery loop); some of them leave (build failure / write), new calls arrive, then the others are let go
+		k := 2 + r.Intn(4)
+		for j := 0; j < k; j++ {
+			if r.Intn(4) == 0 {
+				start('o', 0)
+			} else {
+				start(randFate(), 2|r.Intn(2))
+			}
+		}
+		for guard := 0; guard < 20; guard++ {
+			if i := pick(func(c *cs) bool { return c.stage == 'G' }); i >= 0 {
+				letGo(i)
+			}
+		}
+		steps = append(steps, "Z")
+		closed, zed = true, true
+		feats["server-close"] = true
+		feats["closer-waits-for-unwritten-call"] = true
+		order := make([]int, len(calls))
+		for i := range order {
+			order[i] = i
+		}
+		for i := len(order) - 1; i > 0; i-- {
+			j := r.Intn(i + 1)
+			order[i], order[j] = order[j], order[i]
+		}
+		for _, i := range order {
+			if calls[i].stage == 'R' && r.Intn(2) == 0 {
+				letGo(i)
+			}
+		}
+		m := 1 + r.Intn(3)
+		for j := 0; j < m; j++ {
+			start(randFate(), 0)
+		}
+		n = len(calls)
+	}
 	for it := 0; it < 60; it++ {
 		if len(calls) >= n && r.Intn(6) == 0 {
 			break
